@@ -536,3 +536,41 @@ def cert_cred_rule(rep, F):
         if rd_cred != cred:
             rep.violation("CERT-cred", "%s|%s" % (variant, ",".join(sorted(rd_cred))), "%s::has_script_credentials tests %s; the ledger witnesses %s for this certificate: with credentials of different kinds the builder accepts a script witness (and emits a redeemer pointing at a certificate that is not script-locked) or refuses the one that is needed" % (variant, sorted(rd_cred), sorted(cred)), {})
     rep.floor("certificate types whose script-credential test is compared with the ledger table", 12, n)
+
+
+
+def gate_min(F, fid, site_bb):
+    """smallest value of the compared quantity with which block `site_bb` can be reached, from dominating comparisons against a constant
+    (`q < C` false edge -> C, `q <= C` false edge -> C + 1, `q >= C` true edge -> C, `q > C` true edge -> C + 1). -> (min or None, why)"""
+    from e1_panicpath import dominators
+    import mustpass as mp
+    fn = F.fns[fid]
+    defs = {}
+    for bj, bb in enumerate(fn["bbs"]):
+        for st in bb["st"]:
+            if st[1] == "=":
+                defs.setdefault(st[2].split("|")[0], []).append(("stmt", st[3], bj))
+    best = None
+    why = "no dominating comparison with a constant"
+    for s_ in dominators(fn, site_bb):
+        t = fn["bbs"][s_]["t"]
+        if t[1] != "switch":
+            continue
+        cp = t[2][1].split("|")[0]
+        ds = [d for d in defs.get(cp, []) if d[0] == "stmt" and d[1][0] == "bin"]
+        if len(ds) != 1:
+            continue
+        rv = ds[0][1]
+        op, lhs, rhs = rv[1], rv[2], rv[3]
+        cl, cr = _const_operand_value(F, fn, lhs, defs), _const_operand_value(F, fn, rhs, defs)
+        false_tgt = [tg for v, tg in t[3] if v == "0"]
+        on_false = bool(false_tgt) and mp.dominated_by(fn, site_bb, false_tgt[0]) and false_tgt[0] != t[4]
+        on_true = mp.dominated_by(fn, site_bb, t[4]) and not on_false
+        lo = None
+        if cr is not None and cl is None:
+            lo = {"Ge": cr, "Gt": cr + 1}.get(op) if on_true else {"Lt": cr, "Le": cr + 1}.get(op) if on_false else None
+        elif cl is not None and cr is None:
+            lo = {"Le": cl, "Lt": cl + 1}.get(op) if on_true else {"Gt": cl, "Ge": cl + 1}.get(op) if on_false else None
+        if lo is not None and (best is None or lo > best):
+            best = lo
+    return best, why
